@@ -31,8 +31,6 @@ PROPERTIES = {
         'functions': ['EventBus.cleanup_event_history', 'EventBus.dispatch', 'EventBus.process_event', 'BaseEvent.event_status', 'BaseEvent.event_completed_at', 'BaseEvent.event_started_at',
                       'EventBus._start', 'CleanShutdownQueue.put_nowait'],
         'trusted_base': [AX[k] for k in ('A1', 'A5', 'A10', 'X1', 'X2', 'P1', 'P5')] + [SERIAL_ONLY,
-            'TRUSTED LEMMA (hand argument, assumed at the entry of the deletion loop of cleanup_event_history): the ids collected in events_to_remove are pairwise distinct keys of the history '
-            '(they are taken from three disjoint status classes of a dict\'s items; sorting permutes, slicing takes a prefix)',
             'history dict representation invariant (distinct keys, insertion order) assumed on reads (A10)',
             'datetimes are ordered by their timestamp() (P1)'],
         'level': 'other',
